@@ -11,9 +11,38 @@
    form of these laws ([contract], Mesh/Case.v) is additionally evaluated on the implementation's own
    output, and [contract_sound] below shows that the model satisfies that boolean form on all inputs. *)
 From Coq Require Import List NArith ZArith Bool Arith Permutation.
-From PF Require Import Mesh.Pure Mesh.PureLemmas Mesh.PureProofs Mesh.Case Mesh.PureLaws.
+From PF Require Import Mesh.Pure Mesh.PureLemmas Mesh.PureProofs Mesh.Case Mesh.PureLaws Mesh.AreaLaws.
 Import ListNotations.
 
+(* ================================================================ THE PROPERTY, stated once
+   Sentence 1: "Operations that only change layout or connectivity (unweld, weld-by-position, remove
+   unreferenced vertices, remove degenerate faces, append/repeat, split by material, flip winding, to point
+   cloud, attribute filters and crop) keep the per-corner attribute content of every surviving primitive
+   exactly (weld: within its rounding cell) and drop or reorder only what their contract names."
+   Sentence 2: "Operations that transform one attribute ... change exactly that attribute by the stated map
+   and leave indices, topology and every other attribute untouched."
+
+   Packaged: for all 20 modelled operations, every well-formed input and every parameter, the result of the
+   operation satisfies its contract [contract o ins out] - the boolean conjunction, per operation, of exactly
+   the clauses spelled out one by one below (corner content of the survivors, which primitives survive and
+   in which order, identity / offset indices, no unreferenced vertex, key set, materials, the frame law of
+   the single-attribute transforms with their pointwise maps) - and the composition laws hold.  The same
+   boolean is evaluated on the implementation's own output on every run. *)
+Theorem C03_operations_do_what_they_say :
+  (forall o ins, length ins = op_arity o -> inputs_ok o ins = true -> contract o ins (step o ins) = true) /\
+  (forall m, wf m ->
+     law_ok LEq [unweld (unweld m); unweld m] = true
+     /\ law_ok LEq [remove_unref (remove_unref m); remove_unref m] = true
+     /\ (topology m = Triangle ->
+         exists r, flip m = Ok [r] /\ exists r', flip r = Ok [r'] /\ law_ok LEq [r'; m] = true)) /\
+  (forall a dv m d, wf m -> topology m = Triangle -> lookup (3%N, a) (attrs m) = Some d ->
+     exists r1 r2, weld vec_eqb (round_key dv) a m = Ok [r1]
+       /\ weld vec_eqb (round_key dv) a (unweld m) = Ok [r2]
+       /\ law_ok (LWeldUnweld a dv) [r1; r2] = true).
+Proof. split; [exact PureLaws.contract_sound|split; [exact law_eq_model|exact law_weld_unweld_model]]. Qed.
+Print Assumptions C03_operations_do_what_they_say.
+
+(* ================================================================ the clauses one by one *)
 (* ------------------------------------------------------------------ layout / connectivity operations *)
 
 (* Unweld: corner content unchanged, identity indices, nothing else touched *)
@@ -57,6 +86,30 @@ Theorem remove_null_spec : forall a keep m d, wf m -> topology m = Triangle ->
     /\ (r = m \/ forall v, v < nverts r -> In v (indices r)).
 Proof. exact PureLaws.remove_null_spec. Qed.
 Print Assumptions remove_null_spec.
+
+(* ... and with the exact area test instantiated: MinArea enters as min4 = 4 MinArea^2 and a triangle
+   survives iff its TRUE area exceeds MinArea, i.e. min4 < |cross (p2-p1) (p3-p1)|^2, decided in Z
+   (integer / dyadic coordinates; this is what the needle stream of the check tests at scales 2^-40..2^20) *)
+Theorem remove_null_area_spec : forall a min4 m d, wf m -> topology m = Triangle ->
+  lookup (3%N, a) (attrs m) = Some d ->
+  exists r, remove_null a (area_keep min4) m = Ok [r]
+    /\ prims r = map (map (row m)) (filter (fun t => (min4 <? tri_cross_sq d t)%Z) (chunk3 (indices m)))
+    /\ corners r = map (row m) (concat (filter (fun t => (min4 <? tri_cross_sq d t)%Z) (chunk3 (indices m))))
+    /\ topology r = topology m /\ materials r = materials m
+    /\ (r = m \/ forall v, v < nverts r -> In v (indices r)).
+Proof. exact AreaLaws.remove_null_area_spec. Qed.
+Print Assumptions remove_null_area_spec.
+
+(* |cross|^2 in coordinates (= 4 area^2), non-negative, zero for a repeated corner *)
+Theorem cross_sq_is_four_area_squared : forall x1 y1 z1 x2 y2 z2 x3 y3 z3,
+  cross_sq [x1; y1; z1] [x2; y2; z2] [x3; y3; z3] =
+  (let ux := x2 - x1 in let uy := y2 - y1 in let uz := z2 - z1 in
+   let vx := x3 - x1 in let vy := y3 - y1 in let vz := z3 - z1 in
+   (uy * vz - uz * vy) * (uy * vz - uz * vy) + (uz * vx - ux * vz) * (uz * vx - ux * vz)
+   + (ux * vy - uy * vx) * (ux * vy - uy * vx))%Z
+  /\ (0 <= cross_sq [x1; y1; z1] [x2; y2; z2] [x3; y3; z3])%Z.
+Proof. intros. split; [apply cross_sq_coords|apply cross_sq_nonneg]. Qed.
+Print Assumptions cross_sq_is_four_area_squared.
 
 (* Append: indices of the second mesh offset by the first's vertex count, materials concatenated, key
    set = union, every corner of both meshes keeps its content ([rowk] zero-fills the attributes a mesh
